@@ -630,10 +630,17 @@ class Gen(object):
         h = self.fresh("R")
         self._add_derived(h)
         fmt = self.p["fmt"]
+        between = []
+        if rng.random() < self.p.get("p_between", 0.0):
+            if rng.random() < 0.7:
+                between.append(self.g_clock_jump())
+            if rng.random() < 0.5:
+                between.append(["restart_lite"])
         return [
             "roundtrip", h, dh, fmt, self.write_opts(fmt),
             rng.choice(["str", "text", "bin"]),
             rng.choice(["content", "bytes", "text", "bin"]),
+            between,
         ]
 
     def g_eq(self):
